@@ -752,9 +752,18 @@ class Main(pipeline.Stream):
         self.stats = {}
         self.n = 0
 
+    def jobs(self, tier):
+        return programs(tier)
+
+    def n_random(self, tier):
+        return 192 if tier == "quick" else 20000
+
+    def rand_programs(self):
+        return random_programs()
+
     def gen(self, tier, rng):
         cases = []
-        jobs = programs(tier)
+        jobs = self.jobs(tier)
         for (job, (cs, st)) in zip(jobs, parallel(_explore_job, jobs)):
             prog = job[0]
             key = "%s/%s/%s/%s" % (prog["body"], "+".join(prog["regs"]) or "-", "+".join(prog["obs"]) or "-",
@@ -766,8 +775,8 @@ class Main(pipeline.Stream):
                 # exhaustiveness would be false, so stop)
                 raise RuntimeError("exploration budget too small for %s: %r" % (key, st))
             cases.extend(cs)
-        n_rand = 192 if tier == "quick" else 20000
-        rjobs = [(random_programs(), n_rand // 16, rng.randrange(1 << 30)) for _ in range(16)]
+        n_rand = self.n_random(tier)
+        rjobs = [(self.rand_programs(), n_rand // 16, rng.randrange(1 << 30)) for _ in range(16)] if n_rand else []
         for cs, _ in parallel(_random_job, rjobs):
             cases.extend(cs)
         return cases
